@@ -222,7 +222,9 @@ func borrowed() []source {
 		for _, b := range f.Bases {
 			bs = append(bs, hx.Base{Name: "c10:" + b.Name, Prefix: b.Prefix})
 		}
-		out = append(out, source{"c10:" + f.Name, c10.Setup, f.Alpha, bs})
+		// plus three momentums in one step, so that what a call sets off in other contracts happens inside the depth bound
+		alpha := append(append([]ops.Op{}, f.Alpha...), ops.Op{K: "M3"})
+		out = append(out, source{"c10:" + f.Name, c10.Setup, alpha, bs})
 	}
 	var alpha []ops.Op
 	for _, o := range c11.Alphabet(false) {
